@@ -10,6 +10,7 @@ import (
 	"os"
 	"reflect"
 	"sort"
+	"strings"
 	"unsafe"
 
 	"github.com/philpearl/avro"
@@ -181,9 +182,68 @@ func driveCorpus(c *driverCtx, prop string) {
 	}
 }
 
+// driveRandomLegal: deep seeded types; their generated schema (read back from JSON independently) is
+// encoded by the harness's own random writer (random block splits and size prefixes at every level,
+// null in the position the schema gives it) and read by ReadFile into the same type. TLC first checks
+// that the bytes are a legal encoding (Dec accepts them completely; otherwise exit 2) and then that the
+// delivered values are what they denote.
+func driveRandomLegal(c *driverCtx, prop string) {
+	feat := featuresFromKnown("C01")
+	feat.Time = false // a random string is not a timestamp
+	feat.MaxDepth = 4
+	n := c.pick(150, 4000)
+	done := 0
+	for i := 0; done < n && i < 4*n; i++ {
+		t, tags := genType(c.rng, feat)
+		if typeContains(t, nullTimeT) {
+			continue // a random string is not a timestamp
+		}
+		zero := reflect.New(t).Elem().Interface()
+		s, err := avro.SchemaForType(zero)
+		if err != nil {
+			continue
+		}
+		sj, err := s.Marshal()
+		if err != nil {
+			continue
+		}
+		sn, err := schemaNodeFromJSON(sj)
+		if err != nil || containsKind(sn, "enum") {
+			continue
+		}
+		encSmallInts = c.rng.Intn(5) != 0
+		nrec := 1 + c.rng.Intn(4)
+		recs := make([]any, nrec)
+		var blocks [][2]any
+		var cur []byte
+		cnt := 0
+		for k := 0; k < nrec; k++ {
+			b := randomEncoding(c.rng, sn, 0)
+			recs[k] = byteList(b)
+			cur = append(cur, b...)
+			cnt++
+			if c.rng.Intn(2) == 0 || k == nrec-1 {
+				blocks = append(blocks, [2]any{cnt, cur})
+				cur, cnt = nil, 0
+			}
+		}
+		encSmallInts = false
+		codec := codecs3[i%3]
+		file := buildContainer(sj, codec, true, []byte("0123456789abcdef"), blocks)
+		r := readBack(t, file, readerKinds[i%4], i%2 == 0, -1, nil)
+		c.rec.NewCase()
+		c.rec.Emit(fmt.Sprintf("%s|random-legal|%s", prop, strings.Join(tags, "+")), map[string]any{
+			"op": "rand_read", "mode": prop, "schema": sn, "records": recs, "target": projectType(t), "codec": codec,
+			"delivered": orEmpty(r.delivered), "recheck": orEmpty(r.recheck), "err": errString(r.err), "panic": r.panicked})
+		done++
+	}
+	c.extra["random_legal_files"] = done
+}
+
 func driveVectors(c *driverCtx, prop string) error {
 	if prop == "C03" {
 		driveCorpus(c, prop)
+		driveRandomLegal(c, prop)
 	}
 	if c.cases == "" {
 		return fmt.Errorf("%s needs TLC-generated vectors (-cases)", prop)
@@ -341,6 +401,26 @@ func containsKind(s node, k string) bool {
 	for _, c := range nodeKids(s) {
 		if containsKind(c, k) {
 			return true
+		}
+	}
+	return false
+}
+
+func typeContains(t, what reflect.Type) bool {
+	if t == what {
+		return true
+	}
+	switch t.Kind() {
+	case reflect.Ptr, reflect.Slice, reflect.Array, reflect.Map:
+		return typeContains(t.Elem(), what)
+	case reflect.Struct:
+		if isNullableRegistered(t) {
+			return false
+		}
+		for i := 0; i < t.NumField(); i++ {
+			if typeContains(t.Field(i).Type, what) {
+				return true
+			}
 		}
 	}
 	return false
